@@ -255,3 +255,10 @@ PROPS['C06']['bounds'] += ' M: post-state equations of next/next_back/nth/nth_ba
 PROPS['C16']['mir'] = {'quick': [mrun(['box_generate'], nmax=3)], 'thorough': [mrun(['box_generate'], nmax=6)]}
 PROPS['C16']['technique'] = 'bounded model checking with Kani/CBMC under its allocator model (+ failing-allocator stub); symbolic execution of rustc MIR with a heap-block ledger + z3 for the panicking generator'
 PROPS['C07']['mir'] = {'quick': [mrun(['try_from_iter'], nmax=3)], 'thorough': [mrun(['try_from_iter'], nmax=6)]}
+
+PROPS['C01']['layout'] = True
+PROPS['C01']['technique'] = 'SMT (z3, 64-bit bit-vectors) over the repr(C)/repr(transparent) layout rules applied to the parsed storage-node definitions: base case + inductive step for all N and all element layouts; Kani/CBMC harnesses validate the model against rustc'
+PROPS['C01']['bounds'] = 'L: ALL lengths (induction over the even/odd recursion), all element layouts with size < 2^61, alignment 2^e (e <= 29), size a multiple of alignment. K: lattice of concrete (T,N) instantiations.'
+PROPS['C01']['assumptions'] += ['the Rust Reference\'s repr(C) algorithm and repr(transparent) guarantee', 'the 3-line induction over the binary digits of N (stated in the evidence) is carried out on paper; the solver discharges base case and both steps']
+PROPS['C19']['layout'] = True
+PROPS['C19']['bounds'] += ' L: each storage node consists of exactly two children (+ one element for odd lengths), so the slot count obeys cnt(2k) = 2 cnt(k), cnt(2k+1) = 2 cnt(k) + 1 for every N; the ConstDefault literals are exhaustive struct literals (enforced by rustc).'
